@@ -179,9 +179,9 @@ example : (0 : ℚ) < toyTransc.eps ∧
    by norm_num [witnessQuery], by norm_num [witnessQuery]⟩
 
 /-- **C20** slab / fault `linear`: between the two boundary temperatures for distances inside the range, and equal to them at the
-two ends -/
+two ends (ranges of at least `10 ε`; on a narrower range the model returns the top temperature, `C05_line_linear_degenerate`) -/
 theorem C20_line_linear_envelope (T : Transc F) (mn mx : F) (top bottom : F) (isFault : Bool) (ctx : Ctx F) (depth g : F) (pd : PlaneDist F) (old : F)
-    (hmm : mn < mx)
+    (heps : 0 < T.eps) (hw : ¬ (mx - mn < 10 * T.eps))
     (h : @lineDist F (fieldScalar T) isFault pd.distanceFromPlane ≤ mx ∧ mn ≤ @lineDist F (fieldScalar T) isFault pd.distanceFromPlane) :
     let x := @lineDist F (fieldScalar T) isFault pd.distanceFromPlane
     let tT := @Spec.orAdiabatic F (fieldScalar T) top ctx.potentialT ctx.alpha g ctx.cp mn
@@ -189,9 +189,12 @@ theorem C20_line_linear_envelope (T : Transc F) (mn mx : F) (top bottom : F) (is
     let v := @LineTemp.get F (fieldScalar T) (.linear mn mx .replace top bottom) isFault ctx depth g pd old
     min tT tB ≤ v ∧ v ≤ max tT tB ∧ (x = mn → v = tT) ∧ (x = mx → v = tB) := by
   intro x tT tB v
+  have hmm : mn < mx := by
+    have : 10 * T.eps ≤ mx - mn := not_lt.mp hw
+    nlinarith
   have hv : v = tT + (x - mn) * (tB - tT) / (mx - mn) := by
     show @LineTemp.get F (fieldScalar T) (.linear mn mx .replace top bottom) isFault ctx depth g pd old = _
-    rw [C05_line_linear T mn mx .replace top bottom isFault ctx depth g pd old h, spec_lineLinear_field]
+    rw [C05_line_linear T mn mx .replace top bottom isFault ctx depth g pd old h hw, spec_lineLinear_field]
     rfl
   rw [hv]
   obtain ⟨h1, h2⟩ := lerp_between tT tB mn mx x hmm h.2 h.1
